@@ -84,10 +84,10 @@ def oracle(flavour, base, cwd, s, real, virt):
     if not vparts or vparts[0] != "/" or any(p in ("..", ".", "") or "/" in p for p in vparts[1:]):
         return ("virtual-not-normal", f"virtual parts {vparts!r}")
     if rparts[: len(bparts)] != bparts:
-        return ("escape", f"base parts {bparts!r} are not a prefix of real parts {rparts!r}")
+        return ("outside", f"base parts {bparts!r} are not a prefix of real parts {rparts!r}")
     suffix = rparts[len(bparts):]
     if ".." in suffix:
-        return ("escape", f"'..' below base in real parts {rparts!r}")
+        return ("dotdot", f"'..' below base in real parts {rparts!r}")
     if tuple(suffix) != tuple(vparts[1:]):
         return ("alias", f"real location {suffix!r} differs from virtual path {vparts!r}")
     if list(vparts[1:]) != norm:
@@ -421,10 +421,10 @@ def stream_histories(ctx, xcheck):
 # ---------------------------------------------------------------- known findings
 WITNESSES = [
     # (finding key, flavour, base, cwd, path)
-    ("win-escape-backslash", "win", "C:\\ftp", "/", "..\\..\\windows"),
+    ("win-dotdot-backslash", "win", "C:\\ftp", "/", "..\\..\\windows"),
     ("win-alias-drive", "win", "C:\\ftp", "/", "C:foo"),
     ("win-alias-backslash", "win", "C:\\ftp", "/", "a/\\x"),
-    ("win-escape-drive", "win", "C:\\ftp", "/", "C:.."),
+    ("win-dotdot-drive", "win", "C:\\ftp", "/", "C:.."),
 ]
 
 
